@@ -318,7 +318,8 @@ CHECKS['C17'] = {
     'title': 'CRC and hash routines equal their definitions and compose', 'level': 'exploration', 'engine': 'grid', 'jobs': c17_jobs,
     'rule': ('bounded-exhaustive enumeration against an independent bit-at-a-time polynomial division in both bit orders: for every 8-bit polynomial (256) and for 16/32/64-bit polynomial sets (published ones, single-bit, all-ones, 0, alternating, repeated-byte) '
              'x both bit orders: all 256 table entries; the single update step for every (running value, byte) pair (all 2^16 pairs for CRC-8, all 2^24 for CRC-16 on the main polynomials, GF(2)-basis/complement/m*2^e running values for wider CRCs); '
-             'every message of length <=2 over all 256 byte values and of length <=5 (6 thorough) over {00,01,30,7F,80,FF} with 3 initial values (0, all-ones, 0x5A..), each with EVERY split point including the empty pieces; the reflection relation between the two bit orders. '
+             'every message of length <=2 over all 256 byte values and of length <=5 (6 thorough) over {00,01,30,7F,80,FF} with 3 initial values (0, all-ones, 0x5A..), each with EVERY split point including the empty pieces; the reflection relation between the two bit orders; one table object per width taken through a 9-step history (bit order switched with the same generator, storage wiped between two identical builds, generator changed and back) with all 256 entries checked after each step; '
+             'hash and CRC functions called again with the same pointers after the message and the table were edited in place (straight-line code at -O2). '
              'Hashes: definition val*M+byte, string form vs length-delimited form (strings placed directly before an inaccessible page), null pointer, every split point, on the same message sets with 4 seeds. distinct_nontrivial counts evaluations on non-empty messages / non-zero entries.'),
     'assumptions': ['polynomials for widths above 8 bits are a stated set, not all 2^N', 'messages longer than 6 bytes are covered only through the composition law (a long message is a concatenation of short pieces)'],
     'design_ref': '§4.C17', 'technique': 'bounded-exhaustive enumeration of polynomials x running values x bytes x short messages x split points against bit-by-bit polynomial division',
@@ -366,13 +367,13 @@ def c09_jobs(tier):
 
 CHECKS['C09'] = {
     'title': 'matrix product, transpose and structure kernels match their definitions', 'level': 'exploration', 'engine': 'grid', 'jobs': c09_jobs,
-    'rule': ('complete enumeration of shapes against integer references computed from the definitions: the four product variants (mulmm, mulTm, mulmT, mulTT, with the argument order documented in linalg.h) on EVERY (row, inner, col) in 1..9^3 (1..12^3 thorough; blocked implementations meet each of their remainders) '
-             'with index-coded operands (X[i][j] = 1+16i+j, Y = distinct primes; all products exact in float and double, a wrong index anywhere changes the result) plus ALL pairs of single-entry 0/1 operands for dimensions <= 3 (bilinearity pins every coefficient); '
-             'T1, T2, eye1/2, tri1/2, diag, diag1/2, triL, triL1, triL2, triU, triU1, triU2 on EVERY (m, n) in 1..12^2 (1..20^2 thorough): wide, square and tall, with three operand patterns (index-coded; signed zeros; negative and infinite off-diagonal entries) compared BIT FOR BIT; T2 twice and T1 twice restore the input. Every output lives between 24 pairwise distinct guard cells on each side and is pre-filled with stale non-zero data; inputs must be unchanged. '
-             'Both real widths plain and under ASan, plus long double reals with operands that need more than 53 bits. distinct_nontrivial counts non-square shapes.'),
+    'rule': ('complete enumeration of shapes against integer references computed from the definitions: the four product variants (mulmm, mulTm, mulmT, mulTT, with the argument order documented in linalg.h) on EVERY (row, inner, col) in 1..20^3 (1..48^3 thorough; blocked implementations meet each of their remainders and panel boundaries at 8, 16, 32), each shape also with BOTH OPERANDS BEING THE SAME ARRAY, '
+             'with index-coded operands (X[i][j] = 1+64i+j, Y = distinct primes; all products exact in float and double, a wrong index anywhere changes the result) plus ALL pairs of single-entry 0/1 operands for dimensions <= 3 (bilinearity pins every coefficient); '
+             'T1, T2, eye1/2, tri1/2, diag, diag1/2, triL, triL1, triL2, triU, triU1, triU2 on EVERY (m, n) in 1..20^2 (1..64^2 thorough): wide, square and tall, with three operand patterns (index-coded; signed zeros; negative and infinite off-diagonal entries) compared BIT FOR BIT; T2 twice and T1 twice restore the input. Every output lives between 24 pairwise distinct guard cells on each side and is pre-filled with stale non-zero data; inputs must be unchanged. '
+             'Every argument of every call is wrapped in an evaluation counter (one evaluation per parameter). Both real widths plain and under ASan, plus long double reals with operands that need more than 53 bits. distinct_nontrivial counts non-square shapes.'),
     'assumptions': ['matrix contents beyond the index-coded and single-entry families are covered by bilinearity of the product and by the kernels being data-independent (they contain no branch on element values)'],
     'design_ref': '§4.C09', 'technique': 'complete enumeration of all small shapes (square and rectangular) with index-coded and single-entry operands against integer references, guard cells + ASan',
-    'level_text': 'Every kernel is executed on every shape up to 5x5x5 / 6x6 (7x7x7 / 8x8 thorough) including inner dimension one and both rectangular orientations; since the kernels do not branch on data, index-coded and unit operands determine every coefficient; writes outside the result array are caught by guard cells and ASan.',
+    'level_text': 'Every kernel is executed on every shape up to 20x20x20 / 20x20 (48x48x48 / 64x64 thorough) including inner dimension one and both rectangular orientations; since the kernels do not branch on data, index-coded and unit operands determine every coefficient; writes outside the result array are caught by guard cells and ASan.',
     'level_note': 'Trusted: exact small-integer arithmetic in float/double. Not covered: dimensions above the bound.',
 }
 
@@ -470,14 +471,14 @@ def c16_jobs(tier):
 
 CHECKS['C16'] = {
     'title': 'transfer function and RC filters realise their difference equations exactly', 'level': 'model_checking', 'engine': 'grid', 'jobs': c16_jobs,
-    'rule': ('exhaustive enumeration of operation sequences on the real filters against a reference evaluated on the whole recorded history (time-indexed sums, no delay line): transfer function - EVERY numerator and denominator order 0..3, EVERY coefficient vector over {-1,0,1,2} (denominator {-1,0,1} in quick; 3400 filters quick, 7225 thorough), '
+    'rule': ('exhaustive enumeration of operation sequences on the real filters against a reference evaluated on the whole recorded history (time-indexed sums, no delay line): transfer function - EVERY numerator and denominator order 0..3 (and, with tap-identifying coefficient vectors and impulse/ramp/sign-pattern words, every order pair up to 11/11 quick, 20/20 thorough), EVERY coefficient vector over {-1,0,1,2} (denominator {-1,0,1} in quick; 3400 filters quick, 7225 thorough), '
              'EVERY input word of length 5 (7 thorough) over {-1,0,1,2}, with a zeroing inserted after 1, 3, .. samples (the suffix must then behave as on a fresh filter); integers, so all comparisons are exact; guard cells around both delay lines, stale contents before init. Linearity (2x, x1+x2) and time invariance (leading zero sample) on ALL pairs of words of length 3 (4 thorough). '
              'RC filters: alpha in {0,1/8,1/4,1/2,3/4,1} x EVERY word of length 7 (9) over {-2,0,1,3}: low-pass output stays in the range of 0 and the values fed so far and equals the convex combination exactly, high-pass equals alpha*(y + x - x_prev); 400-step settling / decay on constant inputs; extreme-magnitude words (+-REAL_MAX, 1e16) for the range clause; generators on fc, ts in 10^-12..10^12 (in [0,1], strictly inside for 1e-12 <= fc*ts <= 1e12, macros and C++ members agree, monotone). '
              'states = distinct delay-line contents reached, transitions = filter steps executed, traces_validated_against_impl = input words executed on the real code.'),
     'assumptions': ['integer / dyadic coefficients and inputs make every filter step exact, so outputs are compared with ==', 'unstable filters make the state space infinite, hence the depth bound; stable and nilpotent coefficient sets are included in the same enumeration'],
     'design_ref': '§4.C16', 'technique': 'exhaustive enumeration of all input words up to a depth (with zeroing at every other position) on the real filter against a history-indexed reference; all word pairs for linearity/time-invariance',
     'level_text': 'All input sequences up to length 5 (7 thorough) over a 4-letter alphabet, for every filter of order up to 3/3 over a small coefficient alphabet, are executed on the real code and compared exactly with the difference equation evaluated on the recorded history; linearity and time invariance are checked on all word pairs; the RC filters on all words of length 7 (9) for six exact coefficients.',
-    'level_note': 'Trusted: exact small-integer arithmetic. Not covered: orders above 3, words longer than the depth bound, non-dyadic coefficients (except the settling and extreme-value families).',
+    'level_note': 'Trusted: exact small-integer arithmetic. Not covered: orders above 3 other than through the tap-identifying family, words longer than the depth bound, non-dyadic coefficients (except the settling and extreme-value families).',
 }
 
 
